@@ -190,6 +190,35 @@ impl<T: Clone> Iterator for Items<T> {
     }
 }
 
+/// The same items borrowed: `Iterator<Item = &str>` (a `None` item panics, as in `Items`).
+struct RefItems<'a> {
+    items: &'a [Option<String>],
+    pos: usize,
+}
+impl<'a> Iterator for RefItems<'a> {
+    type Item = &'a str;
+    fn next(&mut self) -> Option<&'a str> {
+        if self.pos >= self.items.len() {
+            return None;
+        }
+        let it = &self.items[self.pos];
+        self.pos += 1;
+        match it {
+            Some(x) => Some(x.as_str()),
+            None => panic!("{}", CB_PANIC),
+        }
+    }
+}
+
+/// Which `Extend<_>` / `FromIterator<_>` impl a string-item line exercises: chosen from the items so that a
+/// script line always means the same call: 0 `String`, 1 `&str`, 2 `Box<str>`, 3 `Cow<str>`, 4 `LeanString`
+/// (only when every item fits inline: building the items must not touch the crate's allocator).
+fn item_kind(items: &[Option<String>]) -> usize {
+    let bytes: usize = items.iter().flatten().map(|s| s.len()).sum();
+    let k = (bytes + items.len()) % 5;
+    if k == 4 && items.iter().flatten().any(|s| s.len() > 16) { 0 } else { k }
+}
+
 #[derive(Clone)]
 enum Piece {
     Text(String),
@@ -696,8 +725,25 @@ impl Exec {
                             }),
                         )
                     } else {
+                        let store = i1.items.clone();
+                        let kind = item_kind(&store);
                         (
-                            guarded(|| { ls.extend(i1); Out::Ok(String::new()) }),
+                            guarded(|| {
+                                match kind {
+                                    1 => ls.extend(RefItems { items: &store, pos: 0 }),
+                                    2 => ls.extend(i1.map(|s| s.into_boxed_str())),
+                                    3 => ls.extend(store.iter().enumerate().map(|(k, o)| -> std::borrow::Cow<'_, str> {
+                                        match o {
+                                            Some(s) if k % 2 == 0 => std::borrow::Cow::Borrowed(s.as_str()),
+                                            Some(s) => std::borrow::Cow::Owned(s.clone()),
+                                            None => panic!("{}", CB_PANIC),
+                                        }
+                                    })),
+                                    4 => ls.extend(i1.map(|s| LeanString::from(s.as_str()))),
+                                    _ => ls.extend(i1),
+                                };
+                                Out::Ok(String::new())
+                            }),
                             guarded(|| { or.extend(i2); Out::Ok(String::new()) }),
                         )
                     }
@@ -901,8 +947,22 @@ impl Exec {
                 let items = parse_items_strs(t.get(2)?)?;
                 let want: String = items.iter().flatten().cloned().collect();
                 let it = Items { items, pos: 0, hint: 0 };
+                let store = it.items.clone();
+                let kind = item_kind(&store);
                 let o = guarded(|| {
-                    val = Some(it.collect::<LeanString>());
+                    val = Some(match kind {
+                        1 => RefItems { items: &store, pos: 0 }.collect::<LeanString>(),
+                        2 => it.map(|s| s.into_boxed_str()).collect::<LeanString>(),
+                        3 => store.iter().enumerate().map(|(k, o)| -> std::borrow::Cow<'_, str> {
+                            match o {
+                                Some(s) if k % 2 == 0 => std::borrow::Cow::Borrowed(s.as_str()),
+                                Some(s) => std::borrow::Cow::Owned(s.clone()),
+                                None => panic!("{}", CB_PANIC),
+                            }
+                        }).collect::<LeanString>(),
+                        4 => it.map(|s| LeanString::from(s.as_str())).collect::<LeanString>(),
+                        _ => it.collect::<LeanString>(),
+                    });
                     Out::Ok(String::new())
                 });
                 orc = Some(want);
